@@ -118,6 +118,8 @@ impl<R: Rng + ?Sized> RandBigInt for R {
             if n < *bound {
                 return n;
             }
+            verif_probe!(RandReject);
+            verif_probe!(tick);
         }
     }
 
